@@ -88,7 +88,7 @@ PROPS = {
     },
     "C01": {
         "level": "proof",
-        "units": ["nameparse", "labeliter", "sections", "optiter", "txtdata", "svcparams", "wirehdr", "rtypebitmap"],
+        "units": ["nameparse", "labeliter", "sections", "optiter", "txtdata", "svcparams", "wirehdr", "rtypebitmap", "keytag"],
         "vx_search": {"bin": "c01_search_small_names", "crate": "replay", "release": True,
                       "what": "16.4 million (octet string of at most 7 octets over 8 parser-relevant octets, offset) pairs and 3 million small messages (section counts 0..=2, body of at most 5 octets) walked twice: ParsedName::parse, "
                               "label iteration both ways, flattening, as_flat_slice, compose_len, equality and Label::iter_slice on the real "
@@ -135,9 +135,13 @@ PROPS = {
                        "accepts exactly the length-prefixed id lists / multiples of the element size, and on such data the "
                        "iterators' expect()s are unreachable and the iteration stays on element boundaries. Unit `txtdata`: "
                        "Txt::check_slice accepts exactly the non-empty sequences of character strings, Txt::parse yields character "
-                       "strings (possibly none), CharStr::skip, and as_flat_slice is total on all of them. Kani covers the unsafe header casts.",
+                       "strings (possibly none), CharStr::skip, and as_flat_slice is total on all of them. MessageIter::next (Message::iter(), real text, unit sections): "
+                       "one call terminates (it moves on by at most the three record sections), an exhausted iterator stays exhausted, and the iteration as a whole "
+                       "is finite also over a message that fails to parse: every item, record or error, strictly decreases the pair (sections still to come, "
+                       "records the current section may still yield). Dnskey::key_tag (unit keytag, evaluated by every display of a DNSKEY record): total for keys "
+                       "of every length, RSA/MD5 keys of fewer than three octets included. Kani covers the unsafe header casts.",
         "not_covered": "RecordIter/AnyRecordIter and into_record (typed RDATA parsers for all types), the individual OPT option "
-                       "parsers (parse_option of each option type is a trait contract here), OptRecord accessors (those of Header, HeaderCounts, OptHeader and OptRcode are under contract in unit wirehdr), MessageIter, "
+                       "parsers (parse_option of each option type is a trait contract here), OptRecord accessors (those of Header, HeaderCounts, OptHeader and OptRcode are under contract in unit wirehdr), "
                        "Message::canonical_name/is_answer (CBMC does not terminate on them: not under contract), dig-style and "
                        "zone-style Display (core::fmt), ParsedName::split_first (Octets::range), 'traversed twice yields the same "
                        "result' (follows from purity over an immutable slice; not stated as an obligation).",
